@@ -382,6 +382,28 @@ int main(int argc, char **argv) {
       int64_t comp = 0;
       rc = iwkv_cursor_is_matched_key(curs[c], &k, &res, &comp);
       printf("%s %d %lld\n", rcname(rc), rc ? 0 : res, (long long) (rc ? 0 : comp));
+    } else if (!strcmp(op, "cmatchself")) {   // cmatchself <c> <width>: is_matched_key with the cursor's own key, number keys as 4 or 8 bytes
+      int c = atoi(tv[1]), w = atoi(tv[2]);
+      size_t ksz = 0;
+      int64_t comp = 0, comp2 = 0;
+      vb = malloc(70000);
+      rc = iwkv_cursor_copy_key(curs[c], vb, 70000, &ksz, &comp);
+      if (rc) {
+        printf("%s 0 0\n", rcname(rc));
+      } else {
+        IWKV_val k = { .data = vb, .size = ksz, .compound = comp };
+        bool res = false, skip = false;
+        if (w == 4 && ksz == 8) {
+          uint64_t v; memcpy(&v, vb, 8);
+          if (v > 0x7fffffffULL) skip = true; else k.size = 4;
+        }
+        if (skip) {
+          printf("SKIP\n");
+        } else {
+          rc = iwkv_cursor_is_matched_key(curs[c], &k, &res, &comp2);
+          printf("%s %d %lld\n", rcname(rc), rc ? 0 : res, (long long) (rc ? 0 : comp2));
+        }
+      }
     } else if (!strcmp(op, "cset")) {   // cset <c> <val> <opflags>
       int c = atoi(tv[1]);
       IWKV_val v = { 0 };
